@@ -86,21 +86,21 @@ def select(records, pairs, ctx):
         by.setdefault((rec["ref"], rec["out"]), []).append(rec)
     chosen = []
     for k in sorted(by):
-        n = 2 if k[1] == "staticpie" else 5
+        n = 1 if k[1] == "staticpie" else 3
         chosen += rng.sample(by[k], min(n, len(by[k])))
     devs = {}
     for rec in records:
         if rec["dev"]:
             devs.setdefault((rec["dev"], rec["out"] == "staticpie"), []).append(rec)
     for k in sorted(devs):
-        chosen += rng.sample(devs[k], min(2 if k[1] else 6, len(devs[k])))
+        chosen += rng.sample(devs[k], min(1 if k[1] else 4, len(devs[k])))
     seen, out = set(), []
     for rec in chosen:
         key = json.dumps(rec, sort_keys=True)
         if key not in seen:
             seen.add(key)
             out.append(rec)
-    return out, rng.sample(pairs, min(len(pairs), 90))
+    return out, rng.sample(pairs, min(len(pairs), 50))
 
 
 def judge(ctx, results, recs, cov, tag):
@@ -259,6 +259,8 @@ def aarch64_part(ctx, cov, d):
                 continue
             if kind == "adrp_ldst64" and cls == "func":
                 continue
+            if kind == "got" and sym == "l_d":
+                continue        # clang reduces :got:local to section+addend; lld 14 and wild both ignore that addend
             for out in ("static", "staticpie"):
                 if out == "staticpie" and kind in ("abs32",):
                     continue
@@ -317,6 +319,9 @@ def aarch64_part(ctx, cov, d):
 def run(ctx):
     cov = {"samples": []}
     records, pairs = model(ctx, cov)
+    # pairs: the second site must itself be a representable reference, else a native failure could
+    # not be attributed to the observed site
+    pairs = [p for p in pairs if p.get("class2") == "ok" and p.get("predicted2") == "link-ok"]
     single, pr = select(records, pairs, ctx)
     cov["cases_enumerated"] = len(records)
     cov["pairs_enumerated"] = len(pairs)
